@@ -33,6 +33,7 @@ from rowlib import REQUIRED
 K_ROW_HISTORY = "row-result-depends-on-parser-history"
 K_ROW_PROCESS = "row-result-depends-on-process-history"
 K_LAYOUT_HISTORY = "layouts-of-one-value-differ-within-a-sheet"
+K_NOT_VALUE = "encoding-does-not-parse-to-value"
 
 SAFE_STR = re.compile(r"^[a-z]( ?[a-z])*$")
 
@@ -60,8 +61,9 @@ def native_literal(rng, ft, v):
         parts = [lit(ft[1], x) for x in v]
         if any(p is None for p in parts) or (ft[1][0] == "bool"):
             return None
-        if ft[1][0] == "int" and v and v == list(range(len(v))) and rng.random() < 0.5:
-            return "{@ range(" + str(len(v)) + ") @}"
+        # (NOT `range(n)` here: only a column of the bare type `list` takes an arbitrary iterable — list(value);
+        # a List[int] column wraps a non-list into a one-element list and int(range(..)) raises.  A false alarm of
+        # the first version of this generator, VERIF_SEED=0.)
         return "{@ [" + ", ".join(parts) + "] @}"
     if k == "ulist":
         if not all(isinstance(x, str) for x in v):
@@ -408,10 +410,14 @@ def judge(sheet, iso, m=None, disagree=None, stats=None):
                                   what=f"two layouts of one value parse differently within one sheet: row {ref} {show_row(sheet, rows[ref])} -> {a}; "
                                        f"row {j} {show_row(sheet, rows[j])} -> {b}"))
                 break
-        if stats is not None:
+        if sheet["values"][vi] is not None:
             for j in idx:
                 if got[j][0] == "ok" and not _deep_eq(got[j][1], sheet["values"][vi]):
-                    stats["layout_parses_to_another_value"][rows[j]["k"]] = stats["layout_parses_to_another_value"].get(rows[j]["k"], 0) + 1
+                    if stats is not None:
+                        stats["layout_parses_to_another_value"][rows[j]["k"]] = stats["layout_parses_to_another_value"].get(rows[j]["k"], 0) + 1
+                    fails.append(dict(at=[j], key=K_NOT_VALUE, value=sheet["values"][vi],
+                                      what=f"a layout does not parse to the value it encodes: value={sheet['values'][vi]!r} row {j} {show_row(sheet, rows[j])} -> {got[j]}"))
+                    break
     if m is not None:
         model_sheet(sheet, got, m, disagree, stats)
     return fails
@@ -569,6 +575,12 @@ def run_sheets(ctx, nontrivial):
                 if f["key"] in reported:
                     continue
                 reported.add(f["key"])
+                if f["key"] == K_NOT_VALUE:
+                    row = dict(rows[f["at"][0]], val=0)
+                    v.failing_input("flow-encoding-does-not-parse-to-value" if sheet["ty"] == "flow" else K_NOT_VALUE, f"model {sheet.get('show')}: {f['what']}",
+                                    dict(fn="sheet", sheet=dict({k: sheet[k] for k in ("ty", "ty2", "show") if k in sheet}, ctxs=sheet["ctxs"], values=[f["value"]], rows=[row]),
+                                         at=[0], key=K_NOT_VALUE))
+                    continue
                 if f.get("also_fresh"):
                     # the two layouts differ on fresh parsers too: a layout dependence of the kind the pair streams report
                     small, at, what = minimise(dict(sheet, rows=[rows[i] for i in f["at"]]), [0, 1], f["key"], None)
